@@ -49,6 +49,25 @@ def _register_out_fresh(prog):
                 OUT_FRESH.setdefault(f.name, set()).add(pp[nm])
 
 
+def _out_fresh_call(rd, d):
+    """the call `g(..., &v, ...)` of address-taken definition d when g hands out only fresh blocks through that parameter"""
+    n = rd.func.cfg.nodes[d.node]
+    if not isinstance(n.ast, dict):
+        return None
+    for x in walk(n.ast):
+        if x.get('kind') == 'CallExpr':
+            f0 = strip(children(x)[0])
+            nm = (f0.get('referencedDecl') or {}).get('name') if f0.get('kind') == 'DeclRefExpr' else None
+            if nm in OUT_FRESH:
+                for i, a in enumerate(children(x)[1:]):
+                    sa = strip(a)
+                    if i in OUT_FRESH[nm] and sa.get('kind') == 'UnaryOperator' and sa.get('opcode') == '&':
+                        t = strip(children(sa)[0])
+                        if t.get('kind') == 'DeclRefExpr' and (t.get('_ref') or ('', None))[1] == d.var:
+                            return x
+    return None
+
+
 def _strong_out_def(rd, d, use_id):
     """d: an address-taken definition `g(..., &v, ...)` at a condition node that tests g's status.  True iff g hands out a fresh
     block through that parameter and the use can only be reached over the success edge of that test."""
@@ -362,7 +381,17 @@ def origins(rd, node_id, e, prog=None, depth=0, seen=None):
                     seen.add(key)
                     out |= origins(rd, d.node, e, prog, depth + 1, seen)
                 elif d.kind == 'addr':
-                    out.add('unknown')
+                    call = _out_fresh_call(rd, d) if OUT_FRESH else None
+                    key = ('addr', d.id)
+                    if call is None:
+                        out.add('unknown')
+                    elif key not in seen:
+                        # the callee stores nothing but fresh blocks (or NULL) through this parameter: after the call the variable
+                        # holds such a block or - when the callee did not store - what it held before the call
+                        seen.add(key)
+                        out.add('fresh:out@%s' % call.get('_line'))
+                        if any(d0.id != d.id for d0 in rd.reaching(d.node, r[1])):
+                            out |= origins(rd, d.node, e, prog, depth + 1, {k for k in seen if isinstance(k, tuple)})
                 else:
                     out.add('uninit')
             return out or {'unknown'}
